@@ -197,15 +197,16 @@ func driveRetain(c *driverCtx, run int) {
 	var ks []*kept
 	var checkpoints []any
 	checkpoint := func(after string) {
-		var idx []int
+		var idx, ids []int
 		var vs []any
 		for i, k := range ks {
 			if k.open {
 				idx = append(idx, i+1)
 				vs = append(vs, safeProject(k.v))
+				ids = append(ids, bankID(k.bank))
 			}
 		}
-		checkpoints = append(checkpoints, map[string]any{"after": after, "open": orEmptyInts(idx), "values": orEmpty(vs)})
+		checkpoints = append(checkpoints, map[string]any{"after": after, "open": orEmptyInts(idx), "values": orEmpty(vs), "banks": orEmptyInts(ids)})
 	}
 	var rerr error
 	pan := catch(func() {
@@ -295,7 +296,7 @@ func driveRetainAcrossReads(c *driverCtx, run int) {
 	var ks []*kept
 	var checkpoints []any
 	checkpoint := func(after string) {
-		var idx []int
+		var idx, ids []int
 		var vs []any
 		for i, k := range ks {
 			if k.closed {
@@ -303,8 +304,9 @@ func driveRetainAcrossReads(c *driverCtx, run int) {
 			}
 			idx = append(idx, i+1)
 			vs = append(vs, safeProject(k.v))
+			ids = append(ids, bankID(k.bank))
 		}
-		checkpoints = append(checkpoints, map[string]any{"after": after, "open": orEmptyInts(idx), "values": orEmpty(vs)})
+		checkpoints = append(checkpoints, map[string]any{"after": after, "open": orEmptyInts(idx), "values": orEmpty(vs), "banks": orEmptyInts(ids)})
 	}
 	var rerr error
 	for rep := 0; rep < 2 && pan == "" && rerr == nil; rep++ {
@@ -335,6 +337,18 @@ func driveRetainAcrossReads(c *driverCtx, run int) {
 	}
 	c.rec.NewCase()
 	c.rec.Emit(key, map[string]any{"op": "retain", "inputs": inputs, "checkpoints": checkpoints, "err": errString(rerr), "panic": pan, "delivered": len(ks)})
+}
+
+// bankID names a bank object by the order in which the harness first saw it (identity of the *ResourceBank, the
+// abstract state of spec/BankPool.tla: which holder holds which bank)
+var bankIDs = map[*avro.ResourceBank]int{}
+
+func bankID(b *avro.ResourceBank) int {
+	if id, ok := bankIDs[b]; ok {
+		return id
+	}
+	bankIDs[b] = len(bankIDs) + 1
+	return len(bankIDs)
 }
 
 func orEmptyInts(x []int) []int {
